@@ -40,6 +40,7 @@ namespace sim
 		, m_node_name(name)
 		, m_forward_timer(ios)
 		, m_last_forward(chrono::high_resolution_clock::now())
+		, m_forwarding(false)
 	{}
 
 	std::string queue::label() const
@@ -90,6 +91,10 @@ namespace sim
 		m_queue_size += packet_size;
 		if (m_queue.size() > 1) return;
 
+		// next_packet_sent() is forwarding a packet and the next hop sent this
+		// one back to us. It starts the next transmission when it resumes
+		if (m_forwarding) return;
+
 		begin_send_next_packet();
 	}
 
@@ -133,7 +138,9 @@ namespace sim
 		const int packet_size = int(p.buffer.size() + p.overhead);
 		m_queue_size -= packet_size;
 
+		m_forwarding = true;
 		forward_packet(std::move(p));
+		m_forwarding = false;
 
 		if (m_queue.size())
 			begin_send_next_packet();
